@@ -62,6 +62,13 @@ def same(a, b):
     return dump(a) == dump(b)
 
 
+class Bindings(dict):
+    """A match result; truthy even when the pattern had no metavariables."""
+
+    def __bool__(self):
+        return True
+
+
 def _mvname(n):
     if isinstance(n, ast.Name) and n.id.startswith("MV__"):
         return n.id[4:]
@@ -163,7 +170,7 @@ def match(pattern, node, bindings=None):
     Returns a bindings dict or None."""
     if isinstance(pattern, str):
         pattern = compile_expr(pattern) if not _is_stmt_src(pattern) else compile_stmt(pattern)
-    b = dict(bindings or {})
+    b = Bindings(bindings or {})
     if isinstance(node, ast.Expr) and not isinstance(pattern, ast.stmt):
         node = node.value
     if isinstance(pattern, ast.Expr) and not isinstance(node, ast.stmt):
